@@ -308,7 +308,17 @@ def beta_reduce(prog, callee, args):
     tup = args[1]
     if not (tup[0] == "aggr" and tup[1] == "tuple"):
         return None
-    cb = prog.bodies[callee]
+    return apply_closure(prog, env, tup[2])
+
+
+def apply_closure(prog, env, argterms):
+    """closure literal `env` = ("aggr", "closure:<path>", captures) applied to argument terms: the single straight-line
+    result term with captures and arguments substituted, else None"""
+    if not (env[0] == "aggr" and env[1].startswith("closure:")):
+        return None
+    cb = prog.bodies.get(env[1][len("closure:"):])
+    if cb is None:
+        return None
     if len(cb.reachable()) > 12 or any(cb.blocks[b_]["t"]["k"] == "switch" for b_ in cb.reachable()):
         return None
     from .guards import closure_ret, subst_upvars
@@ -318,13 +328,17 @@ def beta_reduce(prog, callee, args):
         return None
     if len(rets) != 1:
         return None
+    if any(z[0] in ("mut", "var", "loopval") or z == ("param", 1) and False for z in walk(rets[0])):
+        return None
     r = subst_upvars(rets[0], env[2])
+    if any(z == ("cenv",) for z in walk(r)):
+        return None
 
     def sub(x):
         if not isinstance(x, tuple) or not x or not isinstance(x[0], str):
             return x
         if x[0] == "carg":
-            return tup[2][x[1]] if x[1] < len(tup[2]) else x
+            return argterms[x[1]] if x[1] < len(argterms) else x
         out = [x[0]]
         for y in x[1:]:
             if isinstance(y, tuple) and y and isinstance(y[0], str):
@@ -334,10 +348,7 @@ def beta_reduce(prog, callee, args):
             else:
                 out.append(y)
         return tuple(out)
-    r = sub(r)
-    if any(z[0] in ("cenv", "mut", "var", "loopval") for z in walk(rets[0])):
-        return None
-    return r
+    return sub(r)
 
 
 def strip(t):
